@@ -148,13 +148,14 @@ class Scipy(AbstractIntegrator):
             tuple[float | None, ArrayLike | None]: Tuple containing the final time point and the integrated values at steady state.
 
         """
-        self.reset()
+        # Continue from where the integrator is: after a simulation that is its last
+        # state and time, for a new integrator the initial state at t=0
 
         # If rhs returns a tuple, we get weird errors, so we need
         # to wrap this in a list for some reason
         integ = spi.ode(lambda t, x: list(self.rhs(t, x)), jac=self.jacobian)
         integ.set_integrator(name=self.method)
-        integ.set_initial_value(self.y0)
+        integ.set_initial_value(self.y0, self.t0)
 
         t = self.t0 + step_size
         y1 = copy.deepcopy(self.y0)
@@ -162,6 +163,9 @@ class Scipy(AbstractIntegrator):
             y2 = integ.integrate(t)
             diff = (y2 - y1) / y1 if rel_norm else y2 - y1
             if np.linalg.norm(diff, ord=2) < tolerance:
+                # The next simulation continues from the steady state
+                self.t0 = t
+                self.y0 = copy.deepcopy(y2)
                 return Result(
                     TimeCourse(
                         time=np.array([t], dtype=float),
